@@ -739,7 +739,11 @@ class Flow:
                 if f.attr in ("extend", "update", "insert", "pop", "clear", "sort", "reverse"):
                     self.fact("mutate", name, None, f.attr, args[0] if args else None, s, args=args)
                     if name not in self.acc:
-                        self.env[name] = ("mutated", self.env[name], f.attr, args)
+                        if f.attr == "sort" and not args and all(k in ("key", "reverse") for k, _ in kws):
+                            # the VALUE of a list after `L.sort(key=K)` is `sorted(L, key=K)` (the same stable sort)
+                            self.env[name] = ("call", ("global", "sorted"), (self.env[name],), kws)
+                        else:
+                            self.env[name] = ("mutated", self.env[name], f.attr, args)
                     return
             self.fact("call", f.attr, None, None, ("meth", self.ev(f.value), f.attr, args, kws), s)
             return
